@@ -620,7 +620,7 @@ def run(spec, out):
                                "alias-dupname", "alias-dupsym", "alias-space", "scale-dupname", "scale-space", "scale-badzero", "dimderive-dupname",
                                "prefix-dupname", "prefix-dupsym", "equals-self", "equals-zero", "define-badsymboltype", "dimdefine-dupname",
                                "prefix-dupname-identity", "ownname-derive-dupsym", "ownname-derive-space", "ownname-alias-dupsym", "ownname-alias-space",
-                               "symbolonly-alias-dupsym", "symbolonly-alias-space", "dimctor-dupname", "prefix-rename", "prefix-resymbol", "scale-foreign-zero"])
+                               "symbolonly-alias-dupsym", "symbolonly-alias-space", "dimctor-dupname", "prefix-rename", "prefix-resymbol", "scale-foreign-zero", "wrong-kind-of-argument", "wrong-kind-of-argument"])
             dup_n, dup_s = rng.choice(unit_names), rng.choice(unit_symbols)
             target = rng.choice(my_units) if my_units else None
             anon = None
@@ -667,6 +667,31 @@ def run(spec, out):
                     expect_fail("Dimension.scale", "symbol with space", "fresh", lambda: measured.Temperature.scale(zero, fresh("zqn"), fresh("zq s")))
             elif kind == "scale-badzero":
                 expect_fail("Dimension.scale", "zero point of wrong type", "fresh", lambda: measured.Temperature.scale(273.15, fresh("zqn"), fresh("zqs")))
+            elif kind == "wrong-kind-of-argument":
+                # the everyday mix-ups: a unit where its dimension was meant, the arguments the wrong way round, a None handed on
+                # from a lookup with a typo, a bare number where a quantity was meant.  These calls raise (AttributeError /
+                # TypeError) part-way - and like every definition that raises they leave every registry as it was
+                u0 = rng.choice(my_units) if my_units else Unit._by_name["meter"]
+                d0 = rng.choice(dims) ** rng.randint(20, 26)
+                anon_u = u0 / Unit._by_name["second"] ** rng.randint(5, 9)
+                q0 = 5 * u0
+                n0, s0 = fresh("zqwk"), fresh("zqwks")
+                label, fn = rng.choice([
+                    ("Dimension.derive(unit, name)", lambda: Dimension.derive(anon_u, n0, s0)),
+                    ("Dimension.derive(name, dimension)", lambda: Dimension.derive(n0, d0)),
+                    ("Dimension.derive(None, name)", lambda: Dimension.derive(None, n0)),
+                    ("Unit.derive(dimension, ...)", lambda: Unit.derive(d0, n0, s0)),
+                    ("Unit.derive(quantity, ...)", lambda: Unit.derive(q0, n0, s0)),
+                    ("Unit.derive(None, ...)", lambda: Unit.derive(None, n0, s0)),
+                    ("Unit.alias(symbol=[list])", lambda: u0.alias(name=n0, symbol=[s0])),
+                    ("Dimension.scale(unit, ...)", lambda: d.scale(u0, n0, s0)),
+                    ("Dimension.scale(number, ...)", lambda: d.scale(5, n0, s0)),
+                    ("Unit.equals(unit)", lambda: u0.equals(Unit._by_name["second"])),
+                    ("Unit.equals(number)", lambda: u0.equals(5)),
+                    ("conversions.equate(quantity, unit)", lambda: conversions.equate(q0, u0)),
+                    ("conversions.translate(unit, number)", lambda: conversions.translate(u0, 5)),
+                ])
+                expect_fail(label.split("(")[0], "an argument of the wrong kind: " + label, "fresh", fn)
             elif kind == "dimderive-dupname":
                 anon_d = rng.choice(dims) ** rng.randint(15, 19)
                 taken = rng.choice(sorted(Dimension._by_name))
